@@ -1,21 +1,25 @@
-(* RrtModel.v — geometric::RRT::solve (without intermediate states) over abstract collaborators: the state space's distance
-   and interpolation (through [steer]), the motion validator, the goal, a linear nearest-neighbour structure (first strict
-   minimum in insertion order), the stream of goal-bias decisions and the stream of sampled states. *)
-From Coq Require Import List Bool Arith.
+(* RrtModel.v — the RRT family's solve() over abstract collaborators.
+   Tree section: one loop shared by geometric::RRT and control::RRT (without intermediate states): per iteration a target
+   state, the nearest tree node (linear structure: first strict minimum in insertion order), an attempt to extend from it
+   (which yields the new state and the label of the new motion, or nothing), the goal test and the exact / approximate
+   bookkeeping; then the extraction of the reported path by following parents.
+   Geometric instance: extend = steer towards the target at most maxDistance + checkMotion.
+   Control instance: extend = SimpleDirectedControlSampler::getBestControl (ControlModel.best_control) + minimum duration. *)
+From Coq Require Import List Bool Arith ZArith.
+From OmplV Require Import ControlModel.
 Import ListNotations.
 
-Section Rrt.
-  Variables St D : Type.
+Section Tree.
+  Variables St D I E : Type.
   Variable dist : St -> St -> D.
   Variable dlt : D -> D -> bool.               (* strict comparison of distances *)
-  Variable steer : St -> St -> St.             (* the state to connect to: the sample, or the point at maxDistance towards it *)
-  Variable mv : St -> St -> bool.              (* si_->checkMotion *)
+  Variable target : I -> St.                   (* the state the iteration tries to reach (rstate) *)
+  Variable extend : St -> I -> option (St * E).
   Variable sat : St -> bool.                   (* goal->isSatisfied(state, &dist): verdict *)
   Variable gdist : St -> D.                    (*                                  and distance *)
-  Variable goal_state : St.                    (* what sampleGoal returns *)
   Variable dflt : St.
 
-  Definition node := (St * option nat)%type.   (* state, index of the parent motion *)
+  Definition node := (St * option (nat * E))%type.   (* state, parent index and label of the motion from the parent *)
   (* NearestNeighborsLinear::nearest: first strict minimum *)
   Fixpoint nearest_from (tree : list node) (q : St) (j best : nat) (bd : D) : nat :=
     match tree with
@@ -26,50 +30,97 @@ Section Rrt.
     match tree with [] => O | (s, _) :: t => nearest_from t q 1 O (dist s q) end.
 
   Record rst := mkR { r_tree : list node; r_approx : option (nat * D); r_sol : option nat }.
-  (* one iteration of the main loop; [hit] = the goal-bias draw selected the goal *)
-  Definition rrt_step (s : rst) (r : St) : rst :=
+  Definition tree_step (s : rst) (i : I) : rst :=
     let tree := r_tree s in
-    let ni := nearest tree r in
+    let ni := nearest tree (target i) in
     let nstate := fst (nth ni tree (dflt, None)) in
-    let dstate := steer nstate r in
-    if mv nstate dstate then
+    match extend nstate i with
+    | Some (dstate, e) =>
       let idx := length tree in
-      let tree' := tree ++ [(dstate, Some ni)] in
+      let tree' := tree ++ [(dstate, Some (ni, e))] in
       if sat dstate then mkR tree' (Some (idx, gdist dstate)) (Some idx)
       else match r_approx s with
            | Some (_, bd) => if dlt (gdist dstate) bd then mkR tree' (Some (idx, gdist dstate)) None else mkR tree' (r_approx s) None
            | None => mkR tree' (Some (idx, gdist dstate)) None
            end
-    else s.
-  Fixpoint rrt_loop (s : rst) (hits : list bool) (samples : list St) : rst :=
+    | None => s
+    end.
+  Fixpoint tree_loop (s : rst) (ins : list I) : rst :=
     match r_sol s with
     | Some _ => s
-    | None =>
-      match hits with
-      | [] => s
-      | true :: hs => rrt_loop (rrt_step s goal_state) hs samples
-      | false :: hs => rrt_loop (rrt_step s (hd dflt samples)) hs (tl samples)
-      end
+    | None => match ins with [] => s | i :: t => tree_loop (tree_step s i) t end
     end.
-  (* the motions from a node back to its root, root first *)
-  Fixpoint chain (fuel : nat) (tree : list node) (i : nat) : list St :=
+  (* the motions from a root to a node: (label of the motion into the state, state), root first *)
+  Fixpoint chain (fuel : nat) (tree : list node) (i : nat) : list (option E * St) :=
     match fuel with
     | O => []
     | S f => match nth_error tree i with
              | None => []
-             | Some (s, None) => [s]
-             | Some (s, Some p) => chain f tree p ++ [s]
+             | Some (s, None) => [(None, s)]
+             | Some (s, Some (p, e)) => chain f tree p ++ [(Some e, s)]
              end
     end.
   (* solve(): the tree, the reported path, the approximate flag and the reported difference; None = no solution reported *)
-  Definition rrt_solve (starts : list St) (hits : list bool) (samples : list St) : list node * option (list St * bool * D) :=
-    match starts with [] => ([], None) | _ =>
-    let s := rrt_loop (mkR (map (fun x => (x, None)) starts) None None) hits samples in
-    (r_tree s,
-     match r_sol s, r_approx s with
-     | Some i, Some (_, dd) => Some (chain (S (length (r_tree s))) (r_tree s) i, false, dd)
-     | None, Some (i, dd) => Some (chain (S (length (r_tree s))) (r_tree s) i, true, dd)
-     | _, None => None
-     end)
+  Definition tree_solve (starts : list St) (ins : list I) : list node * option (list (option E * St) * bool * D) :=
+    match starts with
+    | [] => ([], None)
+    | _ =>
+      let s := tree_loop (mkR (map (fun x => (x, None)) starts) None None) ins in
+      (r_tree s,
+       match r_sol s, r_approx s with
+       | Some i, Some (_, dd) => Some (chain (S (length (r_tree s))) (r_tree s) i, false, dd)
+       | None, Some (i, dd) => Some (chain (S (length (r_tree s))) (r_tree s) i, true, dd)
+       | _, None => None
+       end)
     end.
+End Tree.
+
+(* ---- geometric::RRT ---- *)
+Section Rrt.
+  Variables St D : Type.
+  Variable dist : St -> St -> D.
+  Variable dlt : D -> D -> bool.
+  Variable steer : St -> St -> St.             (* the state to connect to: the sample, or the point at maxDistance towards it *)
+  Variable mv : St -> St -> bool.              (* si_->checkMotion *)
+  Variable sat : St -> bool.
+  Variable gdist : St -> D.
+  Variable goal_state : St.                    (* what sampleGoal returns *)
+  Variable dflt : St.
+  (* the targets of the iterations: a goal-bias hit takes the goal state, otherwise the next sample is drawn *)
+  Fixpoint targets (hits : list bool) (samples : list St) : list St :=
+    match hits with
+    | [] => []
+    | true :: hs => goal_state :: targets hs samples
+    | false :: hs => hd dflt samples :: targets hs (tl samples)
+    end.
+  Definition rrt_extend (n r : St) : option (St * unit) := let d := steer n r in if mv n d then Some (d, tt) else None.
+  Definition rrt_solve (starts : list St) (hits : list bool) (samples : list St) : list (St * option nat) * option (list St * bool * D) :=
+    let '(tree, rep) := tree_solve St D St unit dist dlt (fun r => r) rrt_extend sat gdist dflt starts (targets hits samples) in
+    (map (fun n => (fst n, option_map fst (snd n))) tree,
+     match rep with Some (path, approx, dd) => Some (map snd path, approx, dd) | None => None end).
 End Rrt.
+
+(* ---- control::RRT (no intermediate states) with SimpleDirectedControlSampler ---- *)
+Section CRrt.
+  Variables St C : Type.
+  Variable stepf : C -> St -> St.
+  Variable valid : St -> bool.
+  Variable dist : St -> St -> Z.
+  Variable sat : St -> bool.
+  Variable gdist : St -> Z.
+  Variable dflt : St.
+  Variable minDur : nat.
+  (* one iteration's input: the target state and the candidate (control, sampled step count) pairs of the directed sampler *)
+  Definition citer := (St * ((C * nat) * list (C * nat)))%type.
+  Definition crrt_extend (n : St) (i : citer) : option (St * (C * nat)) :=
+    let '(c, k, st) := best_control St C stepf valid (fun x => dist x (fst i)) n (fst (snd i)) (snd (snd i)) in
+    if (minDur <=? k)%nat then Some (st, (c, k)) else None.
+  Definition crrt_solve (starts : list St) (ins : list citer) :=
+    tree_solve St Z citer (C * nat) dist Z.ltb fst crrt_extend sat gdist dflt starts ins.
+End CRrt.
+
+(* the control instance run against the implementation: integer states, a control is the increment per step *)
+Definition crrt_run (bad : list Z) (goal thr : Z) (minDur : nat) (starts : list Z) (hits : list bool) (samples : list Z) (cands : list ((Z * nat) * list (Z * nat)))
+  : list (Z * option (nat * (Z * nat))) * option (list (option (Z * nat) * Z) * bool * Z) :=
+  crrt_solve Z Z (fun u x => (x + u)%Z) (zc_valid bad) (fun a b => Z.abs (a - b)) (fun s => (Z.abs (s - goal) <? thr)%Z) (fun s => Z.abs (s - goal)) 0%Z minDur starts
+             (combine (targets Z goal 0%Z hits samples) cands).
